@@ -450,7 +450,8 @@ class FnTr:
         self.returns = []          # placeholders
         self.wrapper_of = wrapper_of
         self.body = body if body is not None else fn.node.body
-        self.module_names = set()  # names bound to modules by local imports
+        self.mod = fn.mod          # module in which global names are resolved
+        self.local_imports = {}
 
     # ---- variables / emission
     def new(self):
@@ -634,13 +635,7 @@ class FnTr:
         elif isinstance(st, ast.While):
             if st.orelse:
                 raise TranslatorError("while/else")
-            self.effects_of_test(st.test)
-
-            def body():
-                self.stmts(st.body)
-                self.effects_of_test(st.test)
-            # a `continue` skips the re-evaluation of the test in the skeleton; its effects are those of the
-            # evaluation before the loop, which the loop invariant covers (the test is evaluated in the invariant state)
+            # test, body, test, body, ..., test  =  Loop [test; body]; test   (a `continue` goes to the next test)
             self.emit(("Loop", self.block(lambda: (self.effects_of_test(st.test), self.stmts(st.body)))))
             self.effects_of_test(st.test)
         elif isinstance(st, ast.For):
@@ -659,7 +654,6 @@ class FnTr:
             for a in st.names:
                 nm = (a.asname or a.name).split(".")[0]
                 modname = a.name if isinstance(st, ast.Import) else (st.module or "")
-                self.local_imports = getattr(self, "local_imports", {})
                 self.local_imports[nm] = (modname, None if isinstance(st, ast.Import) else a.name)
         else:
             raise TranslatorError("unsupported statement %s at line %d" % (type(st).__name__, st.lineno))
@@ -676,8 +670,19 @@ class FnTr:
         elif isinstance(target, (ast.Tuple, ast.List)):
             elts = target.elts
             if val[0] == "T" and len(val[1]) == len(elts) and not any(isinstance(e, ast.Starred) for e in elts):
-                # evaluate all leaves first (a, b = b, a)
-                vals = [("v", self.mat(v)) if v[0] != "v" or True else v for v in val[1]]
+                # a, b = b, a : read everything that is about to be overwritten first
+                tvars = {self.names[n.id] for n in ast.walk(target) if isinstance(n, ast.Name) and n.id in self.names}
+                vals = []
+                for v in val[1]:
+                    if v[0] in ("T", "L"):
+                        v = ("v", self.mat(v))
+                    if v[0] == "v" and v[1] in tvars:
+                        t = self.new()
+                        self.emit(("Bind", t, ("Alias", v[1])))
+                        v = ("v", t)
+                    elif v[0] == "s" and any(x in tvars for x in ([v[1][1]] if v[1][0] == "Alias" else v[1][1])):
+                        v = ("v", self.leaf_var(v))
+                    vals.append(v)
                 for e, v in zip(elts, vals):
                     self.assign(e, v)
             elif val[0] == "L":
@@ -898,24 +903,27 @@ class FnTr:
                     level(k + 1)
             self.for_loop(g.target, g.iter, body)
         saved = dict(self.names)
+        for g in gens:          # comprehension targets are local to the comprehension
+            for n in ast.walk(g.target):
+                if isinstance(n, ast.Name):
+                    self.names.pop(n.id, None)
         level(0)
-        # comprehension targets are local to the comprehension
-        for n in list(self.names):
-            if n not in saved:
-                del self.names[n]
+        self.names = saved
         return ("v", acc)
 
     def binop(self, e):
         l, r = self.expr(e.left), self.expr(e.right)
         name = BINOP_DUNDER.get(type(e.op))
+        if l == self.fresh() and r == self.fresh():
+            return self.fresh()          # arithmetic on immutable values
         cands = []
         if name:
             cands = self.src.methods.get("__%s__" % name, []) + self.src.methods.get("__r%s__" % name, [])
         lv, rv = self.flat(l), self.flat(r)
         if cands:
             # operands in either role (normal or reflected)
-            res = self.apply_summaries(cands, [("v", self.join_var(lv)), ("v", self.join_var(rv))], {}, builtin=("New", lv + rv),
-                                       what=ast.unparse(e.op.__class__()) if False else name)
+            res = self.apply_summaries(cands, [("v", self.join_var(lv)), ("v", self.join_var(rv))], {}, builtin=("New", lv + rv), what="operator " + name,
+                                       is_method=True)
             return res["val"]
         return ("s", ("New", lv + rv))
 
@@ -936,7 +944,7 @@ class FnTr:
         props = self.src.properties.get(e.attr, [])
         if props:
             recv = ("v", self.mat(base))
-            res = self.apply_summaries(props, [recv], {}, builtin=("From", [recv[1]]), what="property " + e.attr)
+            res = self.apply_summaries(props, [recv], {}, builtin=("From", [recv[1]]), what="property " + e.attr, is_method=True)
             return res["val"]
         if self.src.prim_attr(e.attr):
             self.fn.stats["primitive_attr_reads"] += 1
@@ -944,10 +952,9 @@ class FnTr:
         return ("s", ("From", self.flat(base)))
 
     def lookup_import(self, name):
-        li = getattr(self, "local_imports", {})
-        if name in li:
-            return li[name]
-        return self.src.mod_imports.get(self.fn.mod, {}).get(name)
+        if name in self.local_imports:
+            return self.local_imports[name]
+        return self.src.mod_imports.get(self.mod, {}).get(name)
 
     # ---- calls
     def call(self, e, for_header=False):
@@ -1002,9 +1009,9 @@ class FnTr:
                 return {"val": ("v", G), "mut": []}
             if name in self.src.functions:
                 fns = self.src.functions[name]
-                same = [x for x in fns if x.mod == self.fn.mod]
+                same = [x for x in fns if x.mod == self.mod]
                 return self.apply_summaries(same or fns, argv, kwv, builtin=None, what=name, for_header=for_header)
-            if name in self.src.classes or (name[:1].isupper() and (imp or name in self.src.mod_globals.get(self.fn.mod, ()))) \
+            if name in self.src.classes or (name[:1].isupper() and (imp or name in self.src.mod_globals.get(self.mod, ()))) \
                     or name in ("ValueError", "KeyError", "TypeError", "NotImplementedError", "IndexError", "RuntimeError",
                                 "AssertionError", "Exception", "StopIteration"):
                 self.fn.stats["constructors"] += 1
@@ -1072,8 +1079,8 @@ class FnTr:
         params = fn.all_params()
         if fn.vararg or fn.kwarg:
             return None
-        if not is_method and fn.cls is not None:
-            return None
+        if is_method and "staticmethod" in fn.decorators:
+            vals = vals[1:]
         if len(vals) > len(fn.params):
             return None
         m = {}
@@ -1095,7 +1102,7 @@ class FnTr:
         """desugar a call with the join of the candidate summaries (+ the built-in meaning)"""
         fitting = []
         for fn in cands:
-            m = self.bind_args(fn, vals, kwv, is_method or fn.cls is None or fn.is_property or True if fn.cls is not None else False)
+            m = self.bind_args(fn, vals, kwv, is_method)
             if m is not None:
                 fitting.append((fn, m))
         allvals = vals + list(kwv.values())
@@ -1110,6 +1117,13 @@ class FnTr:
         shape, leafsrc = None, None
         results = []   # (shape, [sources per leaf or None])
         for fn, m in fitting:
+            if fn in self.tr.in_progress:
+                # a (possibly spurious, name-based) recursive call: by induction on the call depth it does no more than
+                # mutate its arguments and return something reachable from them or from the globals
+                self.fn.stats["recursive_call_sites"] += 1
+                mut += [x for v in allvals for x in self.flat(v)]
+                results.append(("leaf", [None]))
+                continue
             sm = self.tr.summary(fn)
             self.fn.stats["call_sites_with_summary"] += 1
             self.tr.called.add(fn.key)
@@ -1273,19 +1287,11 @@ class Translator:
         fn.wrapped = inner
         self.summary(inner)
         t = FnTr(self, fn, body=w.body)
-        # the wrapper's parameters are those of the decorated function
-        t.wrapper_of = (d.args.args[0].arg, inner, None)
-        fn_params = fn.all_params()
-        for p in fn_params:
+        t.mod = decs[0].mod          # names in the wrapper body resolve in the decorator's module
+        for p in fn.all_params():
             t.var(p)
-        t.wrapper_of = (d.args.args[0].arg, inner, [t.names[p] for p in fn_params])
-        saved_mod = fn.mod
-        fn.mod = decs[0].mod          # names in the wrapper body resolve in util.py
-        try:
-            t.fn = fn
-            t.run_wrapper()
-        finally:
-            fn.mod = saved_mod
+        t.wrapper_of = (d.args.args[0].arg, inner, [t.names[p] for p in fn.all_params()])
+        t.run_wrapper()
         fn.param_vars = t.param_vars
 
     def summary(self, fn: Fn):
@@ -1307,8 +1313,11 @@ class Translator:
                 break
         if found is None:
             fn.summary = {"ok": False, "mut": [], "rets": []}
-            ok, why = safe(fn.skel)
-            fn.unsafe_reason = why
+            try:
+                Checker(ret_pinned(params), params).checks(fn.skel, (tuple(params), tuple(params), ()))
+                fn.unsafe_reason = "no parameter set works"
+            except Reject as r:
+                fn.unsafe_reason = "%s  [%s]" % (r.why, show_stmt(r.stmt))
         else:
             rest = [p for p in params if p not in found]
             rets = []
@@ -1367,7 +1376,7 @@ def coq_stmt(st, ind):
     if op == "WriteSelf":
         return pad + "WriteSelf"
     if op == "Impure":
-        return pad + "Impure (* %s *)" % (st[1].replace("(*", "( *").replace("*)", "* )") if len(st) > 1 else "")
+        return pad + "Impure (* %s *)" % (st[1].replace("(*", "( *").replace("*)", "* )").replace('"', "'") if len(st) > 1 else "")
     if op == "If":
         return pad + "If\n" + coq_block(st[1], ind + 2) + "\n" + coq_block(st[2], ind + 2)
     if op == "Loop":
